@@ -198,7 +198,7 @@ where
         2 => rng.gen_range(80..250),
         _ => rng.gen_range(250..if quick { 500 } else { 1500 }),
     };
-    let opts = GenOpts { n_ops, lookups: case % 3 == 1, hashing: rng.gen_bool(0.5), extension: true, max_table_len: 60 };
+    let opts = GenOpts { n_ops, lookups: case % 3 == 1, hashing: rng.gen_bool(0.5), extension: true, max_table_len: 60, only_base2: false };
     let (prog, inputs) = circ::gen_program(&mut rng, &bset, &opts);
     let config = inner_config(&mut rng);
     set_knobs(ProverKnobs::default());
